@@ -1049,5 +1049,8 @@ def write_evidence(prop_id, tier, seed, results, meta, wall, nviol, known):
     }
     ev = {"property_id": prop_id, "tier": tier, "seed": seed, "level": level, "coverage": cov,
           "assumptions": assumptions, "wall_s": round(wall, 2), "violations": nviol}
-    os.makedirs(os.path.join(VERIF, "evidence"), exist_ok=True)
-    json.dump(ev, open(os.path.join(VERIF, "evidence", prop_id + ".json"), "w"), indent=1)
+    # partial runs (VF_ONLY) and regression runs against seeded changes must not replace the evidence of the last full run on /repo
+    evdir = os.environ.get("VERIF_EVIDENCE_DIR") or (os.path.join("/tmp", "vf_partial_evidence") if (os.environ.get("VF_ONLY") or os.environ.get("VERIF_NO_EVIDENCE"))
+                                                     else os.path.join(VERIF, "evidence"))
+    os.makedirs(evdir, exist_ok=True)
+    json.dump(ev, open(os.path.join(evdir, prop_id + ".json"), "w"), indent=1)
